@@ -345,8 +345,20 @@ func GenCfg(r *vlib.RNG) TableCfg {
 func BuildTable(cfg TableCfg, kvs []KV) ([]byte, error) {
 	var buf bytes.Buffer
 	w := table.NewWriter(&buf, cfg.Options(0), nil, 0)
+	// "It is safe to modify the contents of the arguments after Append returns": the pairs are handed over in two
+	// buffers that are overwritten after every call and reused for the next pair.
+	var kbuf, vbuf []byte
 	for i, kv := range kvs {
-		if err := w.Append(kv.K, kv.V); err != nil {
+		kbuf = append(kbuf[:0], kv.K...)
+		vbuf = append(vbuf[:0], kv.V...)
+		err := w.Append(kbuf, vbuf)
+		for j := range kbuf {
+			kbuf[j] ^= 0xa5
+		}
+		for j := range vbuf {
+			vbuf[j] ^= 0x5a
+		}
+		if err != nil {
 			return nil, fmt.Errorf("Append #%d (key %x): %v", i, kv.K, err)
 		}
 		if w.EntriesLen() != i+1 {
